@@ -682,7 +682,10 @@ def run(rep):
         rep.extra["ssltransport_hs_records"] = hsrecs
         with mp.Pool(nproc) as pool:
             emis = pool.map_async(_emit, [(p, hsrecs, K, s) for p in plans for s in range(K)])
-            s1jobs = [(f"MC_SSLTransport[{p}]", p, hsrecs, INVS, "none", True) for p in plans]
+            # the whole-log verdict at every finished state is quadratic in the log: only on the smaller plans
+            s1jobs = [(f"MC_SSLTransport[{p}]", p, hsrecs,
+                       [i for i in INVS if i != "WholeLogVerdictOk" or not p.startswith("reads")], "none", True)
+                      for p in plans]
             s1jobs += [(f"MC_SSLTransport[bugs,Bug={b}]", "bugs", hsrecs, [c], b, False) for b, c in BUGS.items()]
             s1 = pool.map_async(_stage1, s1jobs)
             scenarios, seen, emitted = [], set(), 0
